@@ -301,6 +301,7 @@ Ty(e, env) ==
   LET T(x) == Ty(x, env) IN
   CASE e.op \in {"lit", "py"} -> Imp(e.v)
     [] e.op = "na"   -> e.t
+    [] e.op = "litT" -> IF IsType(e.t) /\ Satisfies(e.v, e.t) THEN e.t ELSE Reject       \* hl.literal(v, t)
     [] e.op = "fld"  -> LET s == CASE e.src = "row" -> env.row [] e.src = "col" -> env.col [] e.src = "entry" -> env.entry [] OTHER -> env.glob
                         IN IF HasF(s, e.n) THEN FType(s, e.n) ELSE Reject
     [] e.op = "var"  -> env.vars[e.i]
@@ -363,8 +364,7 @@ Ty(e, env) ==
                                   ELSE Reject
     [] e.op = "contains" -> LET a == T(e.a) x == T(e.x) IN
                             IF a = Reject \/ x = Reject THEN Reject
-                            ELSE IF a.k = "array" THEN TB           \* ArrayExpression.contains does not look at the item's type
-                            ELSE IF a.k = "set" THEN (IF CanCoerce(x, a.e) THEN TB ELSE Reject)
+                            ELSE IF a.k \in {"array", "set"} THEN (IF CanCoerce(x, a.e) THEN TB ELSE Reject)    \* the item is coerced
                             ELSE IF a.k = "dict" THEN (IF CanCoerce(x, a.key) THEN TB ELSE Reject)
                             ELSE Reject
     [] e.op = "get"  -> LET a == T(e.a) x == T(e.x) IN
@@ -421,10 +421,12 @@ Ty(e, env) ==
                            IF a.k = "array" /\ x # Reject THEN (IF x = a.e THEN a ELSE Reject) ELSE Reject      \* no coercion
     [] e.op = "extend"  -> LET a == T(e.a) x == T(e.x) IN
                            IF a.k = "array" /\ x # Reject THEN (IF x = a THEN a ELSE Reject) ELSE Reject
-    [] e.op = "setadd"  -> LET a == T(e.a) x == T(e.x) IN
+    [] e.op \in {"setadd", "remove"} -> LET a == T(e.a) x == T(e.x) IN        \* the item is coerced to the element type
                            IF a.k = "set" /\ x # Reject THEN (IF CanCoerce(x, a.e) THEN a ELSE Reject) ELSE Reject
-    [] e.op = "union"   -> LET a == T(e.a) x == T(e.x) IN
-                           IF a.k = "set" /\ x # Reject THEN (IF CanCoerce(x, a) THEN a ELSE Reject) ELSE Reject
+    [] e.op \in {"union", "difference", "intersection"} -> LET a == T(e.a) x == T(e.x) IN      \* sets of the same type
+                           IF a.k = "set" /\ x # Reject THEN (IF x = a THEN a ELSE Reject) ELSE Reject
+    [] e.op = "is_subset" -> LET a == T(e.a) x == T(e.x) IN
+                           IF a.k = "set" /\ x # Reject THEN (IF x = a THEN TB ELSE Reject) ELSE Reject
     [] e.op = "agg"      -> LET a == T(e.a) IN IF a = Reject THEN Reject ELSE AggT(e.f, a)
     [] e.op = "aggcount" -> I64
     [] e.op = "aggtake"  -> LET a == T(e.a) IN IF a = Reject THEN Reject ELSE TArr(a)
@@ -536,6 +538,7 @@ RECURSIVE Lower(_, _)
 Lower(e, env) ==
   LET L(x) == Lower(x, env)  T(x) == Ty(x, env)  ty == Ty(e, env) IN
   CASE e.op \in {"lit", "py"} -> ConstOf(e.v)
+    [] e.op = "litT" -> Const(e.t)
     [] e.op = "na"  -> NAx(e.t)
     [] e.op = "fld" -> GetFieldX(Ref(CASE e.src = "row" -> env.row [] e.src = "col" -> env.col [] e.src = "entry" -> env.entry [] OTHER -> env.glob), e.n)
     [] e.op = "var" -> Ref(env.vars[e.i])
@@ -602,6 +605,72 @@ Lower(e, env) ==
 
 \* (6) the property inside the model
 Agree(e, env) == LET t == Ty(e, env) IN t = Reject \/ IrTy(Lower(e, env)) = t
+
+(* ------------------------------------------------------------------------------------------------ *)
+(* (7) Registered functions.  An (Apply name (type args) return-type args...) node is resolved by the engine  *)
+(*     against the signatures registered under `name` (IRFunctionRegistry; the declarations are read from the *)
+(*     working tree, checks/_fetypes_registry.py).  A signature [kind, tparams, params, ret] has PATTERN types: *)
+(*     type terms that may contain variables [k |-> "var", n |-> name, c |-> condition].                       *)
+(*     Unification (Type.unify / TVariable.unify / Box.unify of the engine): a variable binds to the first      *)
+(*     concrete type it meets - if the type meets the variable's condition - and must meet the SAME type at     *)
+(*     every later occurrence; constructors unify component-wise (struct: same field names in the same order). *)
+(*     Bindings: a sequence of [n |-> variable name, t |-> type].                                              *)
+NoMatch == [ok |-> FALSE, b |-> <<>>]
+Bound(b, n) == \E i \in 1 .. Len(b) : b[i].n = n
+ValOf(b, n) == b[CHOOSE i \in 1 .. Len(b) : b[i].n = n].t
+CondOK(c, t) == CASE c = "" -> TRUE
+                  [] c = "numeric" -> t.k \in Numeric                       \* TVariable.condMap: int32 int64 float32 float64
+                  [] c = "int32" -> t = I32  [] c = "int64" -> t = I64  [] c = "float32" -> t = F32  [] c = "float64" -> t = F64
+                  [] c = "struct" -> t.k = "struct"  [] c = "tuple" -> t.k = "tuple"
+                  [] OTHER -> FALSE                                         \* locus / ndarray conditions: none of the universe's types
+RECURSIVE UnifyP(_, _, _), UnifySeq(_, _, _)
+UnifyP(p, c, b) ==
+  IF p.k = "var"
+  THEN IF Bound(b, p.n) THEN (IF ValOf(b, p.n) = c THEN [ok |-> TRUE, b |-> b] ELSE NoMatch)
+       ELSE IF CondOK(p.c, c) THEN [ok |-> TRUE, b |-> Append(b, [n |-> p.n, t |-> c])] ELSE NoMatch
+  ELSE IF p.k # c.k THEN NoMatch
+  ELSE CASE p.k \in {"array", "set", "stream", "interval"} -> UnifyP(p.e, c.e, b)
+         [] p.k = "dict" -> LET r == UnifyP(p.key, c.key, b) IN IF r.ok THEN UnifyP(p.val, c.val, r.b) ELSE NoMatch
+         [] p.k = "tuple" -> IF Len(p.ts) = Len(c.ts) THEN UnifySeq(p.ts, c.ts, b) ELSE NoMatch
+         [] p.k = "struct" -> IF p.ns = c.ns THEN UnifySeq(p.ts, c.ts, b) ELSE NoMatch
+         [] OTHER -> IF p = c THEN [ok |-> TRUE, b |-> b] ELSE NoMatch
+UnifySeq(ps, cs, b) ==
+  IF Len(ps) = 0 THEN [ok |-> TRUE, b |-> b]
+  ELSE LET r == UnifyP(ps[1], cs[1], b) IN IF r.ok THEN UnifySeq(Tail(ps), Tail(cs), r.b) ELSE NoMatch
+
+\* the engine's lookup: type arguments and argument types unify (one set of bindings); a compiled ("jvm") function is
+\* also selected by its return type, the declared return type of an IR-defined ("ir") function is not consulted
+ArgsUnify(sig, targs, args) ==
+  IF Len(sig.tparams) # Len(targs) \/ Len(sig.params) # Len(args) THEN NoMatch
+  ELSE LET r == UnifySeq(sig.tparams, targs, <<>>) IN IF r.ok THEN UnifySeq(sig.params, args, r.b) ELSE NoMatch
+Resolves(sig, targs, args, ret) ==
+  LET r == ArgsUnify(sig, targs, args) IN r.ok /\ (sig.kind = "jvm" => UnifyP(sig.ret, ret, r.b).ok)
+\* ... and the return type the node carries is the one the signature gives
+GivesRet(sig, targs, args, ret) ==
+  LET r == ArgsUnify(sig, targs, args) IN r.ok /\ UnifyP(sig.ret, ret, r.b).ok
+
+\* A recorded Apply node x: name, targs, args, ret (concrete type terms), sigs (the registered signatures of that name)
+ApplyWhy(x) ==
+  LET n == Len(x.sigs)
+      res == {i \in 1 .. n : Resolves(x.sigs[i], x.targs, x.args, x.ret)}
+  IN IF res = {} THEN "no-signature"                          \* the engine: "No function found with the signature ..."
+     ELSE IF Cardinality(res) > 1 THEN "ambiguous"             \* the engine: "Multiple functions found that satisfy ..."
+     ELSE IF ~GivesRet(x.sigs[CHOOSE i \in res : TRUE], x.targs, x.args, x.ret) THEN "return-type-differs"
+     ELSE ""
+ApplyVerdict(u) ==
+  LET xs == ndJsonDeserialize(IOEnv.FE_APPLIES)
+      why == [i \in 1 .. Len(xs) |-> ApplyWhy(xs[i])]
+  IN JsonSerialize(IOEnv.FE_VERDICT, [n |-> Len(xs), bad |-> SetToSeq({[i |-> i, why |-> why[i]] : i \in {j \in 1 .. Len(xs) : why[j] # ""}})])
+\* self-test of the unifier (evaluated with the verdict): the shapes the collection functions use
+ApplySelfTest ==
+  LET T == [k |-> "var", n |-> "T", c |-> ""]  N == [k |-> "var", n |-> "T", c |-> "numeric"]
+      rm == [kind |-> "ir", tparams |-> <<>>, params |-> <<TSet(T), T>>, ret |-> TSet(T)]
+      sm == [kind |-> "ir", tparams |-> <<>>, params |-> <<TArr(N)>>, ret |-> N]
+      pw == [kind |-> "jvm", tparams |-> <<>>, params |-> <<F64, F64>>, ret |-> F64]
+  IN /\ Resolves(rm, <<>>, <<TSet(I64), I64>>, TSet(I64)) /\ ~Resolves(rm, <<>>, <<TSet(I64), I32>>, TSet(I64))
+     /\ ~Resolves(rm, <<>>, <<TArr(I64), I64>>, TSet(I64)) /\ ~Resolves(rm, <<>>, <<TSet(I64)>>, TSet(I64))
+     /\ Resolves(sm, <<>>, <<TArr(F32)>>, F32) /\ ~Resolves(sm, <<>>, <<TArr(TS)>>, TS) /\ ~GivesRet(sm, <<>>, <<TArr(F32)>>, F64)
+     /\ Resolves(pw, <<>>, <<F64, F64>>, F64) /\ ~Resolves(pw, <<>>, <<F64, F64>>, F32) /\ ~Resolves(pw, <<>>, <<F64, I32>>, F64)
 
 (* ------------------------------------------------------------------------------------------------ *)
 (* The bounded universe.  Level 0 = quick tier, 1 = thorough tier (IOEnv.FE_LEVEL).                  *)
@@ -734,6 +803,30 @@ CallsB(N, A, PP, C, S, B, M, ops, cmps) ==
   \cup {SDrop(s, ns) : s \in S, ns \in {<<"a">>, <<"b">>, <<"b", "a">>, <<"p">>, <<"zz">>}}
 Calls(N, A, PP, C, S, B, M, ops, cmps) == CallsA(N, A, PP, C, S, B, M, ops, cmps) \cup CallsB(N, A, PP, C, S, B, M, ops, cmps)
 
+\* collection methods that take an element (or a collection of elements) - every combination of numeric element and
+\* item types, so that a coercion the API forgets shows as an Apply node no registered signature accepts
+NumT == {I32, I64, F32, F64}
+LitT(v, t) == [op |-> "litT", v |-> v, t |-> t]
+SetOf(t)  == LitT(VSet(<<VInt("one"), VInt("two")>>), TSet(t))
+ArrOf(t)  == LitT(VList(<<VInt("one"), VInt("two")>>), TArr(t))
+DictOf(k, v) == LitT(VDict(<<VInt("one")>>, <<VInt("two")>>), TDict(k, v))
+ItemOf(t) == CASE t = I32 -> LI("one") [] t = I64 -> Conv("int64", LI("one")) [] t = F32 -> F32Atom [] t = F64 -> LF("f1.5")
+Items == {ItemOf(t) : t \in NumT} \cup {LB("true"), Py(VInt("one")), Py(VInt("big")), Py(VFloat("f1.5")), LS("sa"), NA(I32)}
+NumColl(u) ==
+       {X2(f, SetOf(t), x) : f \in {"setadd", "remove", "contains"}, t \in NumT, x \in Items}
+  \cup {X2(f, SetOf(t), SetOf(w)) : f \in {"union", "difference", "intersection", "is_subset"}, t \in NumT, w \in NumT}
+  \cup {X2(f, SetOf(t), Py(VSet(<<VInt("one")>>))) : f \in {"union", "difference", "intersection", "is_subset"}, t \in NumT}
+  \cup {X2(f, ArrOf(t), x) : f \in {"contains", "append"}, t \in NumT, x \in Items}
+  \cup {X2("extend", ArrOf(t), ArrOf(w)) : t \in NumT, w \in NumT} \cup {X2("extend", ArrOf(t), Py(VList(<<VInt("one")>>))) : t \in NumT}
+  \cup {Idx(ArrOf(t), x) : t \in {I32, F64}, x \in Items}
+  \cup {X2(f, DictOf(k, F64), x) : f \in {"get", "contains"}, k \in NumT, x \in Items} \cup {Idx(DictOf(k, TS), x) : k \in NumT, x \in Items}
+  \cup {Get2(DictOf(k, v), ItemOf(k), x) : k \in {I32, I64}, v \in NumT, x \in Items}
+  \cup {U1(f, DictOf(k, v)) : f \in {"key_set", "keys", "values", "items"}, k \in {I32, F64}, v \in {I64, F32}}
+  \cup {Mk(f, <<a, b>>) : f \in {"mkset", "mkarray"}, a \in Items, b \in Items}
+  \cup {MkDict(<<a>>, <<b>>) : a \in Items, b \in Items}
+  \cup {MkDict(<<a, b>>, <<c, d>>) : a \in {ItemOf(I32), Py(VFloat("f1.5"))}, b \in {ItemOf(I64), ItemOf(I32), Py(VInt("big"))},
+                                     c \in {ItemOf(I32), ItemOf(F32)}, d \in {Py(VInt("one")), ItemOf(F64), ItemOf(I64)}}
+
 Colls0   == {a \in Atoms : Ty(a, Env0).k \in {"array", "set", "dict"}}
 Structs0 == {a \in Atoms : Ty(a, Env0).k = "struct"}
 Level1A(u) == CallsA(NumAtoms \cup {LS("sa"), ASTR, SI32}, Atoms, PyAll, Colls0, Structs0,
@@ -741,6 +834,7 @@ Level1A(u) == CallsA(NumAtoms \cup {LS("sa"), ASTR, SI32}, Atoms, PyAll, Colls0,
                      IF Level >= 1 THEN ArithOps ELSE {"+", "/", "**"}, IF Level >= 1 THEN CmpOps ELSE {"<", "!="})
 Level1B(u) == CallsB(NumAtoms \cup {LS("sa"), ASTR, SI32}, Atoms, PyAll, Colls0, Structs0,
                      IF Level >= 1 THEN CondsT ELSE CondsQ, IF Level >= 1 THEN MembersT ELSE MembersQ, {}, {})
+              \cup NumColl(u)
 Level1(u) == Level1A(u) \cup Level1B(u)
 
 \* level 2: the operands are themselves calls.  Mid: hand-picked one-call programs, one or two per result type,
